@@ -417,6 +417,20 @@ pub fn gen_options(rng: &mut Rng, encoding_label: Option<&str>) -> Options {
     }
 }
 
+thread_local! {
+    static NONCANONICAL: std::cell::RefCell<std::collections::HashMap<&'static str, std::rc::Rc<Vec<Vec<u8>>>>> =
+        std::cell::RefCell::new(std::collections::HashMap::new());
+}
+
+pub fn noncanonical_forms(enc: &'static Encoding) -> std::rc::Rc<Vec<Vec<u8>>> {
+    NONCANONICAL.with(|m| {
+        m.borrow_mut()
+            .entry(enc.name())
+            .or_insert_with(|| std::rc::Rc::new(codec::noncanonical_sequences(enc, 400)))
+            .clone()
+    })
+}
+
 pub struct Encoded {
     pub bytes: Vec<u8>,
     /// the governing encoding (BOM's if any)
@@ -468,6 +482,20 @@ pub fn encode_for(
             codec::ref_encode(enc, &ascii).unwrap_or_default()
         }
     };
+    let mut body = body;
+    // legacy multi-byte encodings: now and then a comment spelled in a non-canonical byte form
+    // (decodes cleanly, but the encoder would spell it differently)
+    if rng.chance(1, 6) {
+        let forms = noncanonical_forms(enc);
+        if !forms.is_empty() {
+            for _ in 0..rng.range(1, 3) {
+                body.extend_from_slice(b"// ");
+                let form: &Vec<u8> = rng.pick(&forms[..]);
+                body.extend_from_slice(form);
+                body.push(b'\n');
+            }
+        }
+    }
     let mut bytes = vec![];
     if has_bom {
         bytes.extend_from_slice(codec::bom_for(enc).unwrap());
